@@ -233,3 +233,95 @@ def validate_stateful_trace(run, scratch, name, module, events, n_prefix, corrup
                              "iterator_begun_at": ctx,
                              "lines_before": [e for e in events[max(1, i - 3):i + 1] if e.get("t") != "file"]})
     return stuck
+
+
+def validate_programs(run, scratch, name, module, events, n_prefix, corrupt, canary_types=("meta", "uuid", "q", "next"),
+                      jobs=8, timeout=1800, max_rejections=3):
+    """B2+B3 for many independent PROGRAMS in one ordered log (a `reset` line starts each program): the programs are
+    dealt into `jobs` logs that are validated by parallel TLC runs.  A line the trace spec cannot consume is a
+    violation; the program it belongs to is taken out and the rest of that log is validated again, so that one
+    rejection does not hide what follows it.  Binding canary: a log with one corrupted answer must be rejected
+    exactly at that line."""
+    import re as _re
+    from concurrent.futures import ThreadPoolExecutor
+    loads, body = events[:n_prefix], events[n_prefix:]
+    programs, cur = [], None
+    for ev in body:
+        if ev.get("t") == "reset":
+            cur = [ev]
+            programs.append(cur)
+        elif cur is not None:
+            cur.append(ev)
+    if not programs:
+        raise ToolError(f"{name}: no programs in the log")
+
+    def once(evs, tag):
+        path = scratch.path(f"trace-{name}-{tag}.ndjson")
+        write_ndjson(path, evs)
+        r = run_tlc(scratch, module, workers=1, timeout=timeout, env={"TRACE": path}, dfs=True, deadlock=True)
+        stuck = None
+        if r.violation and "Deadlock" in r.violation:
+            m = _re.findall(r"/\\ l = (\d+)", r.out)
+            stuck = int(m[-1]) if m else -1
+        elif r.violation or r.error:
+            raise ToolError(f"{name}: {r.violation or r.error}\n{r.out[-1500:]}")
+        return r, stuck
+
+    def chunk(k):
+        mine = programs[k::jobs]
+        found, states, gen, wall, rounds = [], 0, 0, 0.0, 0
+        while mine and rounds <= max_rejections:
+            evs = loads + [e for p in mine for e in p]
+            r, stuck = once(evs, f"{k}-{rounds}")
+            states += r.distinct
+            gen += r.generated
+            wall += r.wall
+            rounds += 1
+            if stuck is None:
+                if r.distinct < len(evs) - n_prefix + 1:
+                    raise ToolError(f"{name}: TLC consumed {r.distinct} states for {len(evs)} events")
+                break
+            # which program holds line `stuck` (1-based)
+            pos, hit = n_prefix, None
+            for pi, p in enumerate(mine):
+                if pos < stuck <= pos + len(p):
+                    hit = (pi, stuck - pos - 1)
+                    break
+                pos += len(p)
+            if hit is None:
+                raise ToolError(f"{name}: rejected line {stuck} is not inside a program")
+            found.append((mine[hit[0]], hit[1]))
+            mine = mine[:hit[0]] + mine[hit[0] + 1:]
+        return found, states, gen, wall
+
+    with ThreadPoolExecutor(max_workers=jobs) as ex:
+        results = list(ex.map(chunk, range(min(jobs, len(programs)))))
+    states = sum(r[1] for r in results)
+    run.states += states
+    run.transitions += sum(r[2] for r in results)
+    run.traces += len(body)
+    st = {"step": name, "programs": len(programs), "events": len(body), "parallel_logs": min(jobs, len(programs)),
+          "distinct_states": states, "wall_s": round(max(r[3] for r in results), 2),
+          "calls": {}}
+    for ev in body:
+        st["calls"][ev["t"]] = st["calls"].get(ev["t"], 0) + 1
+    run.steps.append(st)
+    rejected = [x for r in results for x in r[0]]
+    for prog, at in rejected:
+        run.violation(name, {"signature": {"step": name, "call": prog[at].get("t")},
+                             "program": prog[:at + 1], "rejected_call": prog[at], "rejected_at_step": at})
+    # canary: first program that contains an answer; corrupt it; must be rejected at that line
+    for p in programs:
+        idx = next((i for i, e in enumerate(p) if e.get("t") in canary_types and "got" in e), None)
+        if idx is not None and not any(p is q for q, _ in rejected):
+            bad = copy.deepcopy(p)
+            bad[idx] = corrupt(bad[idx])
+            _, cstuck = once(loads + bad, "canary")
+            ok = cstuck == n_prefix + idx + 1
+            run.canary[name] = {"corrupted_answer_rejected_at_that_line": ok}
+            if not ok and not rejected:
+                raise ToolError(f"{name}: corrupted line {n_prefix + idx + 1} was not rejected there (stuck at {cstuck})")
+            break
+    else:
+        raise ToolError(f"{name}: no program with an answer to corrupt")
+    return rejected
